@@ -35,7 +35,8 @@ import (
 // 3 blobber_block_rewards 4 generate_challenge), cost CostK; 7 script call of a fee-exempt function
 // (ExName: 1 pour 2 wait), cost CostK; 8 real miner-contract update_settings by the contract owner
 // (SetKey: 1 reward_rate 2 share_ratio, SetVal: index into setvals): the contract rewrites its
-// GlobalNode, a node that goes through the state cache.
+// GlobalNode, a node that goes through the state cache; 9 real miner-contract add_miner registering
+// the generator itself with the sender as delegate wallet (gives payFees a stake pool to reward).
 type TxnSpec struct {
 	Client  int    `json:"c"`
 	Nonce   int64  `json:"n"`
@@ -60,6 +61,9 @@ type Case struct {
 	Txns      []TxnSpec    `json:"txns"`
 	Order     []int        `json:"order"` // pool iteration order: indices into Txns (an index may repeat)
 	Owner     int          `json:"owner,omitempty"` // client that owns the miner contract (update_settings)
+	// NoMinStake: miner contract min_stake_per_delegate = 0, so that a freshly registered miner's stake
+	// pool is rewarded by payFees although nobody has staked yet
+	NoMinStake bool `json:"no_min_stake,omitempty"`
 }
 
 var setkeys = []string{"", "reward_rate", "share_ratio"}
@@ -87,6 +91,8 @@ func fname(s TxnSpec) string {
 		return exnames[s.ExName]
 	case 8:
 		return "update_settings"
+	case 9:
+		return "add_miner"
 	}
 	return ""
 }
@@ -107,6 +113,11 @@ func build(s TxnSpec, now common.Timestamp) *transaction.Transaction {
 		if s.ValBig {
 			t.Value = currency.Coin(cconfig.MaxTokenSupply + 1)
 		}
+	case 9:
+		t.TransactionType = transaction.TxnTypeSmartContract
+		t.ToClientID = minerSCAddress
+		t.TransactionData = fmt.Sprintf(`{"name":"add_miner","input":{"simple_miner":{"id":"%s","n2n_host":"miner0.example","host":"miner0.example","port":7071,"public_key":"%s","short_name":"m0"},"stake_pool":{"settings":{"delegate_wallet":"%s","num_delegates":10,"service_charge":0.1}}}}`,
+			conch.MinerKey.ID, conch.MinerKey.Pub, k.ID)
 	case 8:
 		t.TransactionType = transaction.TxnTypeSmartContract
 		t.ToClientID = minerSCAddress
@@ -222,6 +233,11 @@ func run(c Case) (res result) {
 	} else {
 		cconfig.SmartContractConfig.Set("smart_contracts.minersc.owner_id", defaultOwner)
 	}
+	if c.NoMinStake {
+		cconfig.SmartContractConfig.Set("smart_contracts.minersc.min_stake_per_delegate", 0)
+	} else {
+		cconfig.SmartContractConfig.Set("smart_contracts.minersc.min_stake_per_delegate", 1)
+	}
 	now := common.Now()
 	res.now0 = int64(now)
 	g := conch.NewMiner(c.Cfg, c.Accts, round, now)
@@ -301,6 +317,14 @@ func run(c Case) (res result) {
 		return
 	}
 	res.kinds["gen-ok"]++
+	for _, t := range b.Txns {
+		if t.FunctionName == "payFees" || t.FunctionName == "add_miner" || t.FunctionName == "update_settings" {
+			res.kinds[fmt.Sprintf("%s-status-%d", t.FunctionName, t.Status)]++
+			if t.FunctionName == "payFees" && t.Fee > 0 {
+				res.kinds["payFees-with-nonzero-fee"]++
+			}
+		}
+	}
 	origin := make([]int, len(b.Txns)) // token per block txn
 	fromPool := make([]bool, len(b.Txns))
 	for i, t := range b.Txns {
@@ -489,7 +513,7 @@ func coqCase(c Case, r result) string {
 		s := c.Txns[ix]
 		inf := r.infos[ix]
 		kind := s.Kind
-		if kind == 6 || kind == 7 || kind == 8 {
+		if kind == 6 || kind == 7 || kind == 8 || kind == 9 {
 			kind = 1
 		}
 		val := s.Value
@@ -830,6 +854,37 @@ func genSettings(r *vh.Rand) Case {
 	return c
 }
 
+// genMinerFees: fees enabled with min_fee 0 or > 0, a funded (or empty) generator wallet and a pool
+// transaction that registers the generator as a miner with a stake pool, so that the payFees built-in
+// really distributes fees and rewards; ordinary fee-paying calls around it.
+func genMinerFees(r *vh.Rand) Case {
+	var c Case
+	c.NoMinStake = r.Chance(3, 4)
+	c.Cfg = conch.Cfg{MaxBlockCost: 100000, TransferCost: 10, FutureNonce: 20, MaxByteSize: 1 << 20, BatchSize: r.Range(1, 3),
+		FeeEnabled: true, MinFee: r.PickU64([]uint64{0, 3, 50, 500})}
+	c.Accts = []conch.Acct{{Client: 1, Nonce: 0, Bal: 1 << 40}, {Client: 2, Nonce: 0, Bal: 1 << 40},
+		{Client: conch.MinerToken, Nonce: 0, Bal: r.PickU64([]uint64{0, 1 << 30, 1 << 30})}}
+	fee := func(cost uint64) uint64 {
+		f := cost
+		if c.Cfg.MinFee > f {
+			f = c.Cfg.MinFee
+		}
+		return f + uint64(r.Intn(3))
+	}
+	c.Txns = append(c.Txns, TxnSpec{Client: 1, Nonce: 1, Kind: 9, Fee: fee(100) + 100})
+	for i, m := 0, r.Range(0, 3); i < m; i++ {
+		c.Txns = append(c.Txns, TxnSpec{Client: 2, Nonce: int64(i + 1), Kind: 1 + r.Intn(2), CostK: 5, Fee: fee(5)})
+	}
+	if r.Chance(1, 3) {
+		c.Order = r.Perm(len(c.Txns))
+	} else {
+		for i := range c.Txns {
+			c.Order = append(c.Order, i)
+		}
+	}
+	return c
+}
+
 func key(c Case) string {
 	b, _ := json.Marshal(c)
 	h := sha256.Sum256(b)
@@ -945,6 +1000,10 @@ func main() {
 		Order: []int{0, 1}})
 	for i := 0; i < o.N(40, 400); i++ {
 		handle(genSettings(rnd))
+	}
+	// payFees that really distributes: generator registered with a stake pool, min_fee 0 and > 0
+	for i := 0; i < o.N(30, 300); i++ {
+		handle(genMinerFees(rnd))
 	}
 	// fee-exempt contract calls against a tight budget, fees off and on
 	for _, fe := range []bool{false, true} {
